@@ -183,14 +183,15 @@ func decodeKeyCharByUnicodeRune(buf []byte, cursor int64) ([]byte, int64, error)
 	r := unicodeToRune(buf[cursor : cursor+defaultOffset])
 	if utf16.IsSurrogate(r) {
 		cursor += defaultOffset
-		if cursor+surrogateOffset >= int64(len(buf)) || buf[cursor] != '\\' || buf[cursor+1] != 'u' {
-			return []byte(string(unicode.ReplacementChar)), cursor + defaultOffset - 1, nil
+		// cursor is behind the first escape now
+		if cursor+surrogateOffset < int64(len(buf)) && buf[cursor] == '\\' && buf[cursor+1] == 'u' {
+			r2 := unicodeToRune(buf[cursor+2 : cursor+surrogateOffset])
+			if r := utf16.DecodeRune(r, r2); r != unicode.ReplacementChar {
+				return []byte(string(r)), cursor + surrogateOffset - 1, nil
+			}
 		}
-		cursor += 2
-		r2 := unicodeToRune(buf[cursor : cursor+defaultOffset])
-		if r := utf16.DecodeRune(r, r2); r != unicode.ReplacementChar {
-			return []byte(string(r)), cursor + defaultOffset - 1, nil
-		}
+		// a lone surrogate: only the first escape is consumed
+		return []byte(string(unicode.ReplacementChar)), cursor - 1, nil
 	}
 	return []byte(string(r)), cursor + defaultOffset - 1, nil
 }
@@ -564,7 +565,8 @@ func decodeKeyCharByUnicodeRuneStream(s *Stream) ([]byte, error) {
 	const defaultOffset = 4
 	const surrogateOffset = 6
 
-	if s.cursor+defaultOffset >= s.length {
+	// the four digits may arrive in several reads
+	for s.cursor+defaultOffset >= s.length {
 		if !s.read() {
 			return nil, errors.ErrInvalidCharacter(s.char(), "escaped unicode char", s.totalOffset())
 		}
@@ -572,19 +574,22 @@ func decodeKeyCharByUnicodeRuneStream(s *Stream) ([]byte, error) {
 
 	r := unicodeToRune(s.buf[s.cursor : s.cursor+defaultOffset])
 	if utf16.IsSurrogate(r) {
-		s.cursor += defaultOffset
-		if s.cursor+surrogateOffset >= s.length {
-			s.read()
+		s.cursor += defaultOffset // behind the first escape
+		for s.cursor+surrogateOffset >= s.length {
+			if !s.read() {
+				break
+			}
 		}
-		if s.cursor+surrogateOffset >= s.length || s.buf[s.cursor] != '\\' || s.buf[s.cursor+1] != 'u' {
-			s.cursor += defaultOffset - 1
-			return []byte(string(unicode.ReplacementChar)), nil
+		if s.cursor+surrogateOffset < s.length && s.buf[s.cursor] == '\\' && s.buf[s.cursor+1] == 'u' {
+			r2 := unicodeToRune(s.buf[s.cursor+2 : s.cursor+surrogateOffset])
+			if r := utf16.DecodeRune(r, r2); r != unicode.ReplacementChar {
+				s.cursor += surrogateOffset - 1
+				return []byte(string(r)), nil
+			}
 		}
-		r2 := unicodeToRune(s.buf[s.cursor+defaultOffset+2 : s.cursor+surrogateOffset])
-		if r := utf16.DecodeRune(r, r2); r != unicode.ReplacementChar {
-			s.cursor += defaultOffset - 1
-			return []byte(string(r)), nil
-		}
+		// a lone surrogate: only the first escape is consumed
+		s.cursor--
+		return []byte(string(unicode.ReplacementChar)), nil
 	}
 	s.cursor += defaultOffset - 1
 	return []byte(string(r)), nil
